@@ -270,6 +270,30 @@ def check_fft(ctx, freqs):
     ctx.note_case(len(freqs) >= 3, ["fft:%d" % min(20, len(freqs))])
 
 
+def check_find_notes(ctx, calls):
+    """a sequence of fft.find_notes calls (different tables and maxNote values): each answer depends on its own arguments only"""
+    from mingus.extra import fft
+    table = list(fft._log_cache)
+    for k, (ft, max_note) in enumerate(calls):
+        arg = [(float(f), float(a)) for (f, a) in ft]
+        r = ctx.ok("find_notes", fft.find_notes, list(arg), max_note) if max_note is not None else ctx.ok("find_notes", fft.find_notes, list(arg))
+        if failed(r):
+            return
+        mn = 100 if max_note is None else max_note
+        exp = [0.0] * 129
+        for (f, a) in arg:
+            if f > 0 and a > 0:
+                i = 128 if f > table[127] else bisect.bisect_left(table, f, 0, 128)
+                exp[i if i < mn else 128] += a
+        ok = isinstance(r, list) and len(r) == 129
+        if ok:
+            for x, (note, amp) in enumerate(r):
+                ok = ok and abs(amp - exp[x]) <= 1e-9 * max(1.0, abs(exp[x])) and ((note is None) if x == 128 else (note is not None and int(note) == x))
+        ctx.check(ok, "fft/find_notes", lambda: "call %d of %r: amplitudes %r, expected %r" % (
+            k, calls, [(i, a) for i, (n_, a) in enumerate(r) if a][:6] if isinstance(r, list) else r, [(i, a) for i, a in enumerate(exp) if a][:6]))
+    ctx.note_case(len(calls) >= 2, ["find_notes:%d-calls" % min(len(calls), 6)])
+
+
 # ---- (b) arguments are not modified ----------------------------------------------------------------------
 
 def _arg_calls():
@@ -493,7 +517,7 @@ def check_copies(ctx, case):
     ctx.note_case(len(script) >= 2, ["copies:" + kind])
 
 
-CHECKS = {"history": check_history, "fft": check_fft, "args": check_args, "siblings": check_siblings, "copies": check_copies}
+CHECKS = {"history": check_history, "fft": check_fft, "find_notes": check_find_notes, "args": check_args, "siblings": check_siblings, "copies": check_copies}
 
 
 # ---- generators ----------------------------------------------------------------------------------------
@@ -523,6 +547,9 @@ def sub_fft(ctx, shard, n):
     walk = st.integers(1, 125).flatmap(lambda n: st.lists(
         st.tuples(st.just("b"), st.integers(n - 1, n + 2), st.floats(min_value=0.001, max_value=1.0)).map(list), min_size=3, max_size=20))
     ctx.given("fft", check_fft, st.lists(f, min_size=1, max_size=25) | walk | walk, 500 if ctx.quick else 5000)
+    pair = st.tuples(st.floats(min_value=-10.0, max_value=15000.0) | st.floats(min_value=20.0, max_value=500.0), st.floats(min_value=-1.0, max_value=10.0)).map(list)
+    call = st.tuples(st.lists(pair, min_size=0, max_size=6), st.none() | st.sampled_from([100, 128, 60, 0, 129, 127, 101])).map(list)
+    ctx.given("find_notes", check_find_notes, st.lists(call, min_size=1, max_size=6), 200 if ctx.quick else 3000)
 
 
 def sub_args(ctx, shard, n):
